@@ -51,6 +51,8 @@ class Gen:
         consts = []
         for _ in range(r.randint(0, 2)):
             shp = self.pick([(), (gd,), (2, 2), (2, 3, 2), (2, 2, 2, 2)], [5, 2, 2, 2, 1])
+            if seed_version >= 2 and len(shp) == 2 and r.random() < 0.6:
+                shp = self.pick([(3, 2), (2, 1), (1, 3), (4, 3)])
             consts.append(ufl.Constant(m, shape=shp))
         fmA, dgA = fam()
         if itype == "interior_facet" and fmA in ("Lagrange", "Q") and r.random() < 0.5:
